@@ -9,6 +9,7 @@
 //             c  C++-receives direction: boxed_cast<T>(value) for every (argument kind, requested form)
 //             a  wrong number of arguments
 //             v  vector_conversion<std::vector<int>>: script Vectors of several element kinds x conversion registered or not
+//             w  map_conversion<std::map<std::string, int>>: script Maps of several value kinds x conversion registered or not
 //             t  user type_conversion<From, To>: forms of a To parameter x arguments x conversion registered or not
 #include "vh_common.hpp"
 
@@ -355,6 +356,44 @@ int main(int argc, char **argv) {
             std::fprintf(rows, "{\"k\":\"v\",\"conv\":%d,\"first\":%s,\"second\":%s,\"arg\":%s,\"oc\":%s,\"entered\":%s,\"n\":%d,\"recv\":%s}\n", conv, jstr(vcat[i].first).c_str(),
                          jstr(j < vcat.size() ? vcat[j].first : "").c_str(), jstr(a.first).c_str(), jstr(oc).c_str(),
                          jstr(g_entered >= 0 ? vcat[static_cast<size_t>(g_entered)].first : "").c_str(), g_count, jstr(g_recv).c_str());
+          }
+        }
+      }
+    }
+  }
+  // map_conversion<std::map<std::string, int>>: the same for script Maps
+  {
+    const auto show = [](const std::map<std::string, int> &m) {
+      std::string r = "map:";
+      bool first = true;
+      for (const auto &p : m) {
+        r += (first ? "" : ",") + p.first + "=" + std::to_string(p.second);
+        first = false;
+      }
+      return r;
+    };
+    const std::vector<std::pair<std::string, Proxy_Function>> wcat = {
+        {"mapint", fun([show](std::map<std::string, int> m) { enter(0, show(m)); })},
+        {"cmapint&", fun([show](const std::map<std::string, int> &m) { enter(1, show(m)); })},
+        {"BV", fun([](const Boxed_Value &) { enter(2, "BV"); })},
+    };
+    const std::vector<std::pair<std::string, std::string>> wargs = {{"ints", "[\"a\": 1, \"b\": 2]"}, {"empty", "Map()"}, {"mixed", "[\"a\": 1, \"b\": \"s\"]"},
+        {"dbls", "[\"a\": 1.5]"}, {"nested", "[\"a\": [1]]"}, {"ivar", "iv"}, {"svar", "sv"}, {"vec", "[1, 2]"}, {"mvar", "mv"}};
+    for (int conv = 0; conv <= 1; ++conv) {
+      for (size_t i = 0; i < 2; ++i) {
+        for (size_t j : {wcat.size(), size_t{2}}) {
+          Fixture fx;
+          auto &c = *fx.chai;
+          if (conv) { c.add(map_conversion<std::map<std::string, int>>()); }
+          c.eval("var mv = [\"k\": 4]");
+          c.add(wcat[i].second, "ov");
+          if (j < wcat.size()) { c.add(wcat[j].second, "ov"); }
+          for (const auto &a : wargs) {
+            std::string oc;
+            call(c, "ov(" + a.second + ")", oc);
+            std::fprintf(rows, "{\"k\":\"w\",\"conv\":%d,\"first\":%s,\"second\":%s,\"arg\":%s,\"oc\":%s,\"entered\":%s,\"n\":%d,\"recv\":%s}\n", conv, jstr(wcat[i].first).c_str(),
+                         jstr(j < wcat.size() ? wcat[j].first : "").c_str(), jstr(a.first).c_str(), jstr(oc).c_str(),
+                         jstr(g_entered >= 0 ? wcat[static_cast<size_t>(g_entered)].first : "").c_str(), g_count, jstr(g_recv).c_str());
           }
         }
       }
